@@ -34,7 +34,7 @@ Print Assumptions C09_total_is_wrapped_sum.
 
 (** On an integer column (Int64 cells and nulls; it converts the same way under every batching)
     the metrics are the typed ones: rows, non-null values, wrap64 of the sum, (sum, count),
-    least and greatest value.  COUNT UNIQUE is not among them (class CountUniqueTypedBatch). *)
+    least and greatest value (COUNT UNIQUE: see [C09_count_unique_texts]). *)
 Theorem C09_int_column_metrics : forall vs, Forall int_or_null vs ->
   let cs := to_cells vs in
   let xs := ints_of vs in
@@ -90,13 +90,30 @@ Proof. exact pipeline_equals_fold. Qed.
 Print Assumptions C09_pipeline_equals_fold.
 
 (** The sink as it is run (batch by batch, columnar or row path) has a single possible output,
-    the [flow_rows] of the theorems above, unless the plan is ungrouped and the columnar path keys
-    its aggregators with a different pre-hash (the known class of the lost-partial defect). *)
-Theorem C09_flow_alts_outside_known : forall p ng nf batches,
-  ~ UngroupedMixedBatchPaths p ->
+    the [flow_rows] of the theorems above, for EVERY plan: since d49da47 the columnar and the row
+    path key the ungrouped aggregators alike (the former class UngroupedMixedBatchPaths is gone).
+    Hence the function that is extracted and run against the implementation has exactly one
+    outcome, the pipeline of [C09_pipeline_equals_fold] followed by the empty-group filter. *)
+Theorem C09_flow_alts_single : forall p ng nf batches,
   flow_alts p ng nf batches = [flow_rows p ng nf batches].
-Proof. exact flow_alts_outside_known. Qed.
-Print Assumptions C09_flow_alts_outside_known.
+Proof. exact flow_alts_single. Qed.
+Print Assumptions C09_flow_alts_single.
+
+Theorem C09_merged_groups_alts_single : forall p ng nf flows,
+  merged_groups_alts p ng nf flows =
+  [filter (fun e => keep_group p (fst e)) (pipeline p (map (rows_of_flow ng nf) flows))].
+Proof. exact merged_groups_alts_single. Qed.
+Print Assumptions C09_merged_groups_alts_single.
+
+(** COUNT UNIQUE (since 6631182): for every way of cutting a column into batches, each converted on
+    its own (typed i64 or text), the aggregator holds exactly the set of the values' texts, and the
+    metric is its size — the former class CountUniqueTypedBatch is gone. *)
+Theorem C09_count_unique_texts : forall (batches : list (list value)),
+  exists s, run MCountUnique (concat (map to_cells batches)) = AUnique s /\ sset s
+            /\ (forall x, In x s <-> In x (map cell_string (concat batches)))
+            /\ finalize (run MCountUnique (concat (map to_cells batches))) = FInt (Z.of_nat (length s)).
+Proof. exact count_unique_texts. Qed.
+Print Assumptions C09_count_unique_texts.
 
 (** LIMIT / OFFSET select whole groups (metrics untouched) out of a permutation of all groups. *)
 Theorem C09_limit_caps_groups : forall (V : Type) p limit offset (groups : list (gkey * V)),
